@@ -36,6 +36,7 @@ for name in sys.argv[1:]:
             'check_exit': int(m.group(3)) if m else None, 'violations_reported': int(m.group(4)) if m else None,
         },
         'caught_by_quick': bool(m and m.group(3) == '1'),
+        'caught_by_check': (re.search(r'property=(C\d+)', viol[0]).group(1) if viol else None),
         'first_violations': viol[:8],
     }
     json.dump(meta, open(f'{dst}/meta.json', 'w'), indent=1)
